@@ -102,29 +102,25 @@ func (d *Provider) Get(name string) (interface{}, error) {
 		return instance, nil
 	}
 	if factory, exist := d.factories[name]; exist {
-		d.callstack = append(d.callstack, name)
-		instance, err := factory(d)
+		instance, err := d.call(name, factory)
 		if err != nil {
-			return nil, goaterr.Errorf("%v (dependency callstack: %v)", err, d.callstack)
+			return nil, err
 		}
 		if instance == nil {
 			return nil, goaterr.Errorf("factory for %s return nil as instance", name)
 		}
-		d.callstack = d.callstack[:len(d.callstack)-1]
 		d.clean(name)
 		d.instances[name] = instance
 		return instance, nil
 	}
 	if factory, exist := d.defaultFactories[name]; exist {
-		d.callstack = append(d.callstack, name)
-		instance, err := factory(d)
+		instance, err := d.call(name, factory)
 		if err != nil {
-			return nil, goaterr.Errorf("%v (dependency callstack: %v)", err, d.callstack)
+			return nil, err
 		}
 		if instance == nil {
 			return nil, goaterr.Errorf("default factory for %s return nil as instance", name)
 		}
-		d.callstack = d.callstack[:len(d.callstack)-1]
 		if d.autoclean {
 			delete(d.defaultFactories, name)
 		}
@@ -239,6 +235,19 @@ func (d *Provider) InjectTo(obj interface{}) error {
 		}
 	}
 	return nil
+}
+
+// call run the factory with the name pushed on the callstack. The name is
+// popped on every exit path (success, error, nil instance and panic)
+func (d *Provider) call(name string, factory app.Factory) (instance interface{}, err error) {
+	d.callstack = append(d.callstack, name)
+	defer func() {
+		d.callstack = d.callstack[:len(d.callstack)-1]
+	}()
+	if instance, err = factory(d); err != nil {
+		return nil, goaterr.Errorf("%v (dependency callstack: %v)", err, d.callstack)
+	}
+	return instance, nil
 }
 
 func (d *Provider) clean(name string) {
